@@ -329,6 +329,28 @@ func c13ModelCases(o *Out) {
 			o.emit("A", "c13.indent", [][]byte{[]byte(w.String()), []byte(pi[0]), []byte(pi[1]), []byte(strconv.Itoa(how))}, []byte(res), nil, false)
 			o.count("indent_model_cases", 1)
 		}
+		// the colouring interpreter beside its model (op c13.color): markers of two shapes, and the empty scheme
+		mk := func(h, f string) gojson.ColorFormat { return gojson.ColorFormat{Header: h, Footer: f} }
+		var marks [10]string
+		switch i % 3 {
+		case 0:
+			marks = [10]string{"\x01H1\x02", "\x01F1\x02", "\x01H5\x02", "\x01F5\x02", "\x01H4\x02", "\x01F4\x02", "\x01H8\x02", "\x01F8\x02", "\x01H7\x02", "\x01F7\x02"}
+		case 1:
+			marks = [10]string{"<", ">", "\"", "\"", ",", ":", "}", "", "", "{"} // markers made of JSON's own punctuation
+		}
+		sch := &gojson.ColorScheme{Int: mk(marks[0], marks[1]), Uint: mk(marks[0], marks[1]), Float: mk(marks[0], marks[1]), String: mk(marks[2], marks[3]),
+			Bool: mk(marks[4], marks[5]), Null: mk(marks[6], marks[7]), ObjectKey: mk(marks[8], marks[9]), Binary: mk("B", "b")}
+		got, err := c01Safe(func() ([]byte, error) { return gojson.MarshalWithOption(v.Interface(), gojson.Colorize(sch), gojson.DisableHTMLEscape()) })
+		res := string(got)
+		if err != nil {
+			res = "ERR " + err.Error()
+		}
+		args := [][]byte{[]byte(w.String())}
+		for _, m := range marks {
+			args = append(args, []byte(m))
+		}
+		o.emit("A", "c13.color", args, []byte(res), nil, false)
+		o.count("colour_model_cases", 1)
 	}
 }
 
